@@ -23,7 +23,7 @@ import prototext
 from common import REPO, Check, hx, phash, run_driver
 
 SIZES_PLAIN = [0, 1, 127, 128, 16383, 16384, 70000]
-SIZES_NOISE = [0, 1, 127, 128, 16383, 16384, 65515]
+SIZES_NOISE = [0, 1, 127, 128, 255, 256, 16383, 16384, 32767, 32768, 40000, 65514, 65515]
 OVERSIZE_NOISE = [65516, 65536 + 300]
 
 
@@ -109,7 +109,15 @@ def run_session(ck: Check, noise: bool, ids, stats, debug: bool = False):
     for bi, batch in enumerate(batches):
         truth = [(ids.get(type(m).__name__), m.SerializeToString()) for m in batch]
         before = len(tr.writes)
-        conn.send_messages(tuple(batch))
+        try:
+            conn.send_messages(tuple(batch))
+        except Exception as e:  # noqa: BLE001
+            # (batches that exceed the frame format are sent in their own scenarios, not here)
+            ck.violation(f"{framing}-send-raised:{type(e).__name__}",
+                         f"sending a batch that fits the {framing} frame format (payload sizes {[len(p) for _, p in truth]}) raised "
+                         f"{type(e).__name__}: {e}", {"framing": framing, "batch_index": bi, "payload_sizes": [len(p) for _, p in truth],
+                                                      "batch": [[type(m).__name__, m.SerializeToString().hex()[:200]] for m in batch]})
+            return
         nw = len(tr.writes) - before
         stats["evaluations"] += 1
         stats["distinct"].add((framing, tuple((t, len(p)) for t, p in truth)))
